@@ -74,8 +74,18 @@ func VerifC12Records() {
 	_, sub := recsOf("s.a.com", typeTXT)
 	_, got = recsOf("a.com", typeTXT)
 	vAssert(len(sub) == 1 && sub[0] == d4 && len(got) == len(model), "C12/records-of-a-sub-name-live-under-the-enclosing-registered-name")
+	// the sub-name has its own ordered list: a second value is appended, a duplicate refused
+	subAdded := asOwner(o1, "addRecord", "s.a.com", typeTXT, d1)
+	vAssert(subAdded == (d1 != d4), "C12/sub-name-records-form-their-own-list")
+	if subAdded {
+		last = vTime()
+	}
+	_, sub = recsOf("s.a.com", typeTXT)
+	_, got = recsOf("a.com", typeTXT)
+	vAssert(sub[0] == d4 && ((subAdded && len(sub) == 2 && sub[1] == d1) || (!subAdded && len(sub) == 1)) && len(got) == len(model), "C12/sub-name-records-form-their-own-list")
 	_, all := vRead("nns", "getAllRecords", "a.com")
 	vAssert(len(all.([]RecordState)) == 1+len(model), "C12/getAllRecords-returns-every-record-of-the-name")
+	_ = sub
 	_, soa = recsOf("a.com", typeSOA)
 	vAssert(soa[0] == soaOf("a.com", last), "C12/every-mutation-refreshes-the-SOA-serial")
 	// a name cannot be registered while the enclosing name holds records for sub-names of it
@@ -91,7 +101,7 @@ func VerifC12Records() {
 	_, got = recsOf("a.com", typeTXT)
 	_, sub = recsOf("s.a.com", typeTXT)
 	_, soa = recsOf("a.com", typeSOA)
-	vAssert(len(got) == 0 && len(sub) == 1 && len(soa) == 1, "C12/deleteRecords-empties-exactly-one-type-of-one-name")
+	vAssert(len(got) == 0 && len(sub) >= 1 && sub[0] == d4 && len(soa) == 1, "C12/deleteRecords-empties-exactly-one-type-of-one-name")
 	vAssert(soa[0] == soaOf("a.com", vTime()), "C12/every-mutation-refreshes-the-SOA-serial")
 }
 
